@@ -87,10 +87,9 @@ def fieldSep (fieldSep sheetSep bookSep : String) : String :=
 def fieldSubsep (fieldSubsep sheetSubsep bookSubsep : String) : String :=
   if fieldSubsep == "" then getSubsep sheetSubsep bookSubsep else fieldSubsep
 
-/-- What protogen writes into the generated *workbook* options
-(`newBookParser` + `newTableParser`): only the **global** header, with defaults for the four
-rows and the two separators; name/type line are copied as they are. -/
-def recordBook (g : Option Level) : Level :=
+/-- `newBookParser` + `newTableParser`: the **global** header with defaults for the four rows and
+the two separators; name/type line are copied as they are. -/
+def recordGlobal (g : Option Level) : Level :=
   let h := g.getD {}
   { namerow  := if h.namerow == 0 then defaultNameRow else h.namerow
     typerow  := if h.typerow == 0 then defaultTypeRow else h.typerow
@@ -100,6 +99,24 @@ def recordBook (g : Option Level) : Level :=
     typeline := h.typeline
     sep      := if h.sep == "" then defaultSep else h.sep
     subsep   := if h.subsep == "" then defaultSubsep else h.subsep }
+
+/-- `tableParser.mergeBookOptions` (fix D11): non-zero book-level (`#` row) settings override -/
+def mergeBook (o : Level) (bm : Option Level) : Level :=
+  match bm with
+  | none => o
+  | some b =>
+    { namerow  := if b.namerow != 0 then b.namerow else o.namerow
+      typerow  := if b.typerow != 0 then b.typerow else o.typerow
+      noterow  := if b.noterow != 0 then b.noterow else o.noterow
+      datarow  := if b.datarow != 0 then b.datarow else o.datarow
+      nameline := if b.nameline != 0 then b.nameline else o.nameline
+      typeline := if b.typeline != 0 then b.typeline else o.typeline
+      sep      := if b.sep != "" then b.sep else o.sep
+      subsep   := if b.subsep != "" then b.subsep else o.subsep }
+
+/-- What protogen writes into the generated *workbook* options. -/
+def recordBook (g : Option Level) (bookMeta : Option Level) : Level :=
+  mergeBook (recordGlobal g) bookMeta
 
 /-- `ToWorkseet`: the sheet's metasheet row is recorded verbatim. -/
 def recordSheet (s : Level) : Level := s
